@@ -146,14 +146,17 @@ CancelCtxFx(S, g, mode) ==
 \* invocations
 Running(S) == {i \in DOMAIN S.invs : S.invs[i].st = "running"}
 
-InvocationFx(S, reg, inv, tmo) ==
+\* rp = the INVOCATION says the caller receives progress (details.receive_progress)
+InvocationRpFx(S, reg, inv, tmo, rp) ==
   IF ~S.conn THEN S
   ELSE IF reg \notin Rng(S.cregs)
   THEN EmitC(S, "ERROR", inv, "wamp.error.invalid_argument")    \* no handler for that registration
   ELSE IF inv \in Running(S) THEN S                                \* (not generated: see DupInvocation)
   ELSE IF inv <= S.lastinv THEN S                                  \* an old / duplicate id: ignored
-  ELSE Cb([S EXCEPT !.invs = (inv :> [reg |-> reg, st |-> "running", dl |-> IF tmo > 0 THEN S.now + tmo ELSE 0]) @@ @,
+  ELSE Cb([S EXCEPT !.invs = (inv :> [reg |-> reg, st |-> "running", dl |-> IF tmo > 0 THEN S.now + tmo ELSE 0, rp |-> rp]) @@ @,
                     !.lastinv = inv], "invstart", inv, 0)
+
+InvocationFx(S, reg, inv, tmo) == InvocationRpFx(S, reg, inv, tmo, FALSE)
 
 \* the handler's context is cancelled: exactly one ERROR with the invocation's id
 KillInvFx(S, inv) ==
@@ -170,6 +173,13 @@ ReleaseFx(S, inv, how) ==
   ELSE LET S1 == [S EXCEPT !.invs[inv].st = "done"] IN
        IF ~S.conn THEN S1
        ELSE EmitC(S1, IF how = "yield" THEN "YIELD" ELSE "ERROR", inv, IF how = "yield" THEN "" ELSE "app.error")
+
+\* the running handler of inv calls SendProgress: a progressive YIELD under the invocation's id
+\* if the caller receives progress, otherwise an error for the handler and nothing on the wire
+SendProgFx(S, inv) ==
+  IF inv \notin Running(S) THEN S
+  ELSE IF S.conn /\ S.invs[inv].rp THEN Cb(EmitC(S, "YIELD", inv, "p"), "sendprog", inv, 1)
+  ELSE Cb(S, "sendprog", inv, 0)
 
 EventFx(S, sub, tag) ==
   IF S.conn /\ sub \in Rng(S.csubs) THEN Cb(S, "event", sub, tag) ELSE S
